@@ -143,7 +143,7 @@ class Facts:
                 return c
             except Exception:
                 pass
-        c = {'bodies': {}, 'adts': {}, 'statics': {}, 'impls': []}
+        c = {'bodies': {}, 'adts': {}, 'statics': {}, 'impls': [], 'promoted': []}
         for line in open(src):
             d = json.loads(line)
             r = d.pop('rec')
@@ -155,6 +155,8 @@ class Facts:
                 c['statics'][d['name']] = d
             elif r == 'impl':
                 c['impls'].append(d)
+            elif r == 'promoted':
+                c['promoted'].append(d)
         tmp = pk + '.%d.tmp' % os.getpid()
         pickle.dump(c, open(tmp, 'wb'), protocol=pickle.HIGHEST_PROTOCOL)
         os.replace(tmp, pk)
